@@ -128,3 +128,42 @@ pub fn c14_user_ping_automaton() {
     std::mem::forget(up);
     std::mem::forget(pp);
 }
+
+/// C07.ping, from every state of the user-ping handshake: once the connection side
+/// (`UserPingsRx`) is gone, the waiter is woken and no later operation on the user handle
+/// hangs or is accepted - in whatever order the user calls them.
+pub fn c07_user_ping_connection_gone_any_state() {
+    let mut pp = PingPong::new();
+    let up = pp.take_user_pings().unwrap();
+    let s: usize = kani::any();
+    kani::assume(s == USER_STATE_EMPTY || s == USER_STATE_PENDING_PING || s == USER_STATE_PENDING_PONG || s == USER_STATE_RECEIVED_PONG);
+    up.0.state.store(s, Ordering::Release);
+    let wk = cw::waker(2);
+    let mut cx = Context::from_waker(&wk);
+    if s != USER_STATE_RECEIVED_PONG {
+        assert!(up.poll_pong(&mut cx).is_pending());
+    } else {
+        up.0.pong_task.register(cx.waker());
+    }
+    let w1 = cw::wakes(2);
+    drop(pp.user_pings.take());
+    assert!(cw::wakes(2) == w1 + 1, "C07.ping: pong waiter not woken when the connection ended");
+    // three further user operations in any order
+    let mut i = 0;
+    while i < 3 {
+        if kani::any() {
+            let r = up.poll_pong(&mut cx);
+            assert!(!r.is_pending(), "C07.ping: poll_pong hangs after the connection ended");
+            std::mem::forget(r);
+        } else {
+            let r = up.send_ping();
+            assert!(!r.is_ok(), "C07.ping: send_ping accepted on a connection that is gone (its pong can never arrive)");
+            std::mem::forget(r);
+        }
+        i += 1;
+    }
+    kani::cover!(s == USER_STATE_RECEIVED_PONG, "from_received_pong");
+    kani::cover!(true, "end");
+    std::mem::forget(up);
+    std::mem::forget(pp);
+}
